@@ -79,7 +79,7 @@ func setup(dir string, tmpl *cache.Cache, s scenario) {
 	c := cache.WithDirVerif(tmpl, dir)
 	put := func(i int, data []byte) {
 		if err := c.PutBytes(ids[i], data); err != nil {
-			kit.Harness("setup Put: %v", err)
+			kit.UnderTestFailed("PutBytes while building the start state (no fault injected yet) fails: %v", err)
 		}
 	}
 	nc := s.newContent()
@@ -418,7 +418,7 @@ func newWorld() *world {
 	os.MkdirAll(w.dir, 0o777)
 	c, err := cache.Open(w.dir)
 	if err != nil {
-		kit.Harness("open: %v", err)
+		kit.UnderTestFailed("cache.Open of a fresh directory fails: %v", err)
 	}
 	w.tmpl = c
 	return w
